@@ -403,6 +403,8 @@ def np_array(I, obj, dtype=None, copy=True, **kw):
     if isinstance(obj, (VList, tuple, list)):
         items = list(obj.l if isinstance(obj, VList) else obj)
         subs = [np_array(I, x) if isinstance(x, (VList, tuple, list, Arr)) else x for x in items]
+        # array-like scalar objects (a Quantity is a 0-d ndarray subclass): numpy takes their bare values (A-NUMPY / A-UNITS)
+        subs = [I.call(I.find_method(x, '_np_array'), [], {}) if isinstance(x, VObj) and I.find_method(x, '_np_array') is not None else x for x in subs]
         if any(isinstance(x, VObj) for x in subs):
             raise Unsupported('np.array of objects')
         if subs and all(isinstance(x, Arr) for x in subs):
